@@ -2095,3 +2095,79 @@ Proof.
       apply map_a_val_seq.
   - intros l' N. rewrite a_seq_a_set by auto. apply Nat.eqb_neq in N. rewrite N. reflexivity.
 Qed.
+
+(* ---- the invariant spelled out for one list, and along covered histories ---- *)
+Lemma Rep_wf s a : Rep s a ->
+  (forall l r xs, nth_error (a_lists a) l = Some (r, Some xs) ->
+     nth_error (lsts s) l = Some (LRec r (Z.of_nat (length xs))) /\
+     chain (nx s) (pv s) r xs r /\ NoDup xs /\ ~ In r xs /\ (forall e, ow s e = Some l <-> In e xs)) /\
+  (forall l r, nth_error (a_lists a) l = Some (r, None) ->
+     nth_error (lsts s) l = Some (LRec r 0) /\ nx s r = None /\ pv s r = None /\ forall e, ow s e <> Some l) /\
+  (forall e, ow s e = None -> ~ is_root a e -> nx s e = None /\ pv s e = None).
+Proof.
+  intro R. split; [|split].
+  - intros l r xs H. destruct (Rep_list _ _ _ _ _ R H) as (Hl & _).
+    destruct (R_init _ _ R _ _ _ H) as (C & D & O). repeat split; auto.
+    + apply (Rep_root_notin _ _ _ _ _ _ _ _ R H H).
+    + intro Oe. pose proof (proj1 (Rep_ow_iff _ _ _ _ _ e R H) Oe) as I.
+      rewrite (a_seq_nth _ _ _ _ H) in I. exact I.
+  - intros l r H. destruct (Rep_list _ _ _ _ _ R H) as (Hl & _).
+    destruct (R_uninit _ _ R _ _ H) as [A B]. repeat split; auto.
+    intros e Oe. pose proof (proj1 (Rep_ow_iff _ _ _ _ _ e R H) Oe) as I.
+    rewrite (a_seq_nth _ _ _ _ H) in I. exact I.
+  - apply (R_free _ _ R).
+Qed.
+
+Theorem list_wf ops os a h :
+  spec_run ops = (os, a, h, true) -> Rep (st (snd (run ops))) a /\ fst (run ops) = os /\ hs (snd (run ops)) = h.
+Proof.
+  intro E. destruct (list_refines_spec _ _ _ _ E) as (s & -> & R). auto.
+Qed.
+
+Theorem list_traversals ops os a h l :
+  spec_run ops = (os, a, h, true) -> l < length (a_lists a) ->
+  let s := st (snd (run ops)) in
+  list_Len s l = Ok (Z.of_nat (length (a_seq a l))) /\
+  walk_fwd s l = Ok (a_seq a l) /\ walk_bwd s l = Ok (rev (a_seq a l)).
+Proof.
+  intros E Hl. destruct (list_refines_spec _ _ _ _ E) as (s & -> & R). cbn [snd st].
+  destruct (nth_error_lt_exists _ _ Hl) as ([r o] & H).
+  split; [eapply Len_sim; eauto|]. apply walks_sim; auto.
+Qed.
+
+Theorem list_neighbours ops os a h e :
+  spec_run ops = (os, a, h, true) -> In e h ->
+  let s := st (snd (run ops)) in
+  elem_Next s (Some e) = Ok (spec_next a e) /\ elem_Prev s (Some e) = Ok (spec_prev a e).
+Proof.
+  intros E I. unfold spec_run in E.
+  destruct (run_from_sim ops _ _ [] _ _ _ Rep_init (fun e (I : In e []) => match I with end) E) as (s & E' & R & HK).
+  unfold run, init_rstate. rewrite E'. cbn [snd st]. apply NextPrev_sim; auto.
+Qed.
+
+(* a panic in a covered history is always the nil dereference of a nil element argument,
+   and the call changed nothing *)
+Theorem list_panics ops : forall a h os a' h' i op k,
+  spec_run_from a h ops = (os, a', h', true) ->
+  nth_error ops i = Some op -> nth_error os i = Some (OPanic k) ->
+  k = NilDeref /\ exists a1 h1, nil_arg op h1 = true /\ spec_exec op a1 h1 = (OPanic NilDeref, a1, h1).
+Proof.
+  induction ops as [|op0 ops IH]; intros a h os a' h' i op k E Hop Hos; [destruct i; discriminate|].
+  cbn [spec_run_from] in E.
+  destruct (spec_exec op0 a h) as [[o a1] h1] eqn:E1.
+  destruct (spec_run_from a1 h1 ops) as [[[os2 a2] h2] ok2] eqn:E2.
+  injection E as <- <- <- Eok. apply andb_true_iff in Eok as [_ ->].
+  destruct i as [|i]; simpl in Hop, Hos.
+  - injection Hop as ->. injection Hos as ->.
+    destruct (spec_panic op a h k) as (K & N & S); [rewrite E1; reflexivity|]. eauto.
+  - eapply IH; eauto.
+Qed.
+
+Theorem list_panics_run ops os a h i op k :
+  spec_run ops = (os, a, h, true) ->
+  nth_error ops i = Some op -> nth_error (fst (run ops)) i = Some (OPanic k) ->
+  k = NilDeref /\ exists a1 h1, nil_arg op h1 = true /\ spec_exec op a1 h1 = (OPanic NilDeref, a1, h1).
+Proof.
+  intros E Hop Hos. destruct (list_refines_spec _ _ _ _ E) as (s & Er & _). rewrite Er in Hos. cbn [fst] in Hos.
+  eapply list_panics; eauto.
+Qed.
